@@ -720,10 +720,21 @@ func ruleC17Complex(w *World, r *Report, f, isW, isE, isR, width, exactUn *ssa.F
 			init = e
 		}
 	}
-	bits, _, _ := widthOf(iv.Type())
-	r.check(bits >= 32, "R17.3", name, "induction variable wider than 16 bits", pos, fmt.Sprintf("%d bits", bits), "the loop counter is 16 bits wide: high=65535 never terminates / wraps")
+	// R17.3 is about what the arm returns — one {port, 0xFFFF} per port of [low, high], in order — however
+	// the list is produced (appending in a loop over the ports, filling a slice made with the port count, …):
+	// the function is run on ranges around every boundary of the types involved and the result compared.
+	decided := exactExpansionInterpreted(r, f, name, pos, exactStrategy)
+	// A loop that counts the ports themselves is, in addition, checked symbolically — that holds for every
+	// range, not only the interpreted ones. (When the function could not be interpreted, whatever loop the
+	// arm has is held to that form, as before.)
 	is := symOf(init)
 	il, ilok := linearIn(is)
+	if decided && !(ilok && il.leaf == "portRange.low") {
+		ruleC17ExactPrefix(w, r, f, iv, name, pos, width, exactStrategy)
+		return
+	}
+	bits, _, _ := widthOf(iv.Type())
+	r.check(bits >= 32, "R17.3", name, "induction variable wider than 16 bits", pos, fmt.Sprintf("%d bits", bits), "the loop counter is 16 bits wide: high=65535 never terminates / wraps")
 	r.check(ilok && il.leaf == "portRange.low" && il.num == 1 && il.den == 1, "R17.3", name, "loop starts at zext(low)", pos, is.String(), "expansion starts at "+is.String())
 	k, isK := constInt(step)
 	r.check(isK && k == 1, "R17.3", name, "loop step is 1", pos, "step 1", "expansion step is "+symOf(step).String())
@@ -791,6 +802,74 @@ func ruleC17Complex(w *World, r *Report, f, isW, isE, isR, width, exactUn *ssa.F
 		}
 		r.check(appends == 1, "R17.3", name, "one rule per iteration", pos, "1 append in the loop body", fmt.Sprintf("%d appends per iteration", appends))
 	}
+	ruleC17ExactPrefix(w, r, f, iv, name, pos, width, exactStrategy)
+}
+
+// exactExpansionInterpreted runs asComplexTernaryMatches(pr, Exact) on true ranges (low < high, not the
+// wildcard) placed around 0, the 8-, 15- and 16-bit boundaries and of widths around the bound the arm honours,
+// and compares every list it returns with {low,0xFFFF}, {low+1,0xFFFF}, …, {high,0xFFFF}. A range the arm
+// refuses has nothing to compare (when it may refuse is R17.2). Returns false when the function could not
+// be followed (nothing is reported then).
+func exactExpansionInterpreted(r *Report, f *ssa.Function, name, pos string, exactStrategy int64) bool {
+	lows := []uint64{0, 1, 2, 3, 100, 127, 128, 254, 255, 256, 257, 1000, 32766, 32767, 32768, 65434, 65435, 65500, 65533, 65534}
+	widths := []uint64{1, 2, 3, 16, 99, 100, 101, 255, 256, 300}
+	n, expanded, bad := 0, 0, ""
+	for _, lo := range lows {
+		for _, wd := range widths {
+			hi := lo + wd
+			if hi > 65535 || (lo == 0 && hi == 65535) {
+				continue
+			}
+			e := &evaluator{}
+			res, ok := e.exec(f, []evalVal{prVal(lo, hi), {u: uint64(exactStrategy), ok: true}})
+			if !ok {
+				if !execFault(e.fail) {
+					return false
+				}
+				n++
+				if bad == "" {
+					bad = fmt.Sprintf("[%d, %d] → %s", lo, hi, e.fail)
+				}
+				continue
+			}
+			if len(res) != 2 || !res[1].ok || !res[0].ok {
+				return false
+			}
+			n++
+			if !res[1].isNil {
+				continue // refused
+			}
+			expanded++
+			var got []evalVal
+			if res[0].obj != nil {
+				got = res[0].obj.elems
+			}
+			desc := ""
+			if uint64(len(got)) != wd+1 {
+				desc = fmt.Sprintf("%d rules for %d ports", len(got), wd+1)
+			}
+			for i := 0; i < len(got) && desc == ""; i++ {
+				g := got[i]
+				if len(g.fields) != 2 || !g.fields[0].ok || !g.fields[1].ok {
+					return false
+				}
+				if g.fields[0].u != lo+uint64(i) || g.fields[1].u != 0xFFFF {
+					desc = fmt.Sprintf("rule %d is {%d, 0x%X}, want {%d, 0xFFFF}", i, g.fields[0].u, g.fields[1].u, lo+uint64(i))
+				}
+			}
+			if desc != "" && bad == "" {
+				bad = fmt.Sprintf("[%d, %d] → %s", lo, hi, desc)
+			}
+		}
+	}
+	r.Extra["R17.3_ranges_interpreted"] = n
+	r.check(bad == "", "R17.3", name, "the Exact expansion of [low, high] is {low,0xFFFF} … {high,0xFFFF}: one rule per port, in order", pos, fmt.Sprintf("%d ranges interpreted, %d expanded", n, expanded), "asComplexTernaryMatches(Exact) does not return one exact rule per port of the range: "+bad)
+	r.floor("R17.3 ranges interpreted", n, 150) // (that some range is expanded at all is R17.2's fourth outcome)
+	return true
+}
+
+// ruleC17ExactPrefix (R17.2): the decisions in front of the Exact expansion.
+func ruleC17ExactPrefix(w *World, r *Report, f *ssa.Function, iv *ssa.Phi, name, pos string, width *ssa.Function, exactStrategy int64) {
 	// width guard: the loop is reachable only through a Width() <= K edge
 	wg := onlyVia(f, iv, func(a, b *ssa.BasicBlock) bool {
 		x, op, y, ok := edgeFact(a, b)
@@ -1019,17 +1098,24 @@ func portRuleConsumers(w *World, r *Report, rule string, cart *ssa.Function) {
 			if ifi == nil {
 				continue
 			}
-			bo, ok := ifi.Cond.(*ssa.BinOp)
-			if !ok || !isRangeIndexOf(bo.X) {
+			// a loop over every rule of a list, by range or by index
+			list, idx := loopOverAllOf(ifi.Cond)
+			if list == nil {
 				continue
 			}
-			lc, ok := bo.Y.(*ssa.Call)
-			if !ok || calleeName(lc) != "builtin.len" {
+			// … each turn of which looks at the rule of that turn only
+			own := true
+			allInstrs(f, func(i ssa.Instruction) {
+				if ia, ok := i.(*ssa.IndexAddr); ok && ia.X == list && ia.Index != idx {
+					own = false
+				}
+			})
+			if !own {
 				continue
 			}
 			// the loop body reaches processPDR
 			if reach(f, firstInstr(b.Succs[0]), func(i ssa.Instruction) bool { return isCallTo(i, proc) }, nil, nil) != nil {
-				ranged = lc.Call.Args[0]
+				ranged = list
 			}
 		}
 		if ranged == nil {
